@@ -303,7 +303,7 @@ func checkOracleTuple(b *base, t tuple, tally *engine.Tally) {
 }
 
 func sigConfigs(quick bool) []tsssig.Cfg {
-	ev := []string{"req", "reqlow", "reqgov", "reqpoor", "feechg", "sig", "block"}
+	ev := []string{"req", "reqlow", "reqnolimit", "reqotherdenom", "reqgov", "reqpoor", "oreq", "oreqlow", "feechg", "sig", "block"}
 	if quick {
 		return []tsssig.Cfg{
 			{N: 3, T: 2, SigningPeriod: 1, MaxSigningAttempt: 2, MaxDESize: 6, InitDE: 4, MaxReq: 2, Depth: 7, Events: ev, FeePerSigner: 10},
@@ -322,12 +322,12 @@ func init() {
 	engine.Register(&engine.Check{
 		ID: "C13",
 		Run: func(r *engine.Run) {
-			r.Bound = "oracle: 1-3 raw requests over 4 fee vectors (none, 1uband, 2uband+3tok, 5tok; repeats), ask 1..3, limits {exact, +1, empty, -1 per denom, denom missing}, balances {ample, exact, one unit short at the k-th charging source}; signing: group t of n from a real DKG, paid / under-limit / unaffordable / governance requests, fee_per_signer changes in flight, retries, depth 7 (quick) / 9 (thorough)"
+			r.Bound = "oracle: 1-3 raw requests over 4 fee vectors (none, 1uband, 2uband+3tok, 5tok; repeats), ask 1..3, limits {exact, +1, empty, -1 per denom, denom missing}, balances {ample, exact, one unit short at the k-th charging source}; signing: group t of n from a real DKG, paid / under-limit / no-limit / limit-in-another-denom / unaffordable / governance requests, oracle results put to the group with and without room in the remaining fee limit, fee_per_signer changes in flight, retries, depth 7 (quick) / 9 (thorough)"
 			r.Assumptions = []string{
 				"signing fees while a group transition is pending are covered by C18's search, not here",
 				"IBC-relayed oracle requests use the same CollectFee path and are not enumerated separately",
 			}
-			r.Required = []string{"oracle:ok", "oracle:oracle/43", "oracle:sdk/5", "req:ok", "reqlow:bandtss/3", "reqgov:ok", "reqpoor:sdk/5", "signing_success", "signing_failed", "feechg:ok"}
+			r.Required = []string{"oracle:ok", "oracle:oracle/43", "oracle:sdk/5", "req:ok", "reqlow:bandtss/3", "reqgov:ok", "reqpoor:sdk/5", "reqnolimit:sdk/10", "reqotherdenom:bandtss/3", "oracle-signing-created", "oracle-signing-refused:fee-limit", "signing_success", "signing_failed", "feechg:ok"}
 			deadline := r.Deadline(3*time.Minute, 20*time.Minute)
 			runOracle(r, deadline)
 			tsssig.Run(r, "C13", sigConfigs(r.Quick()), 6*time.Minute, 45*time.Minute)
